@@ -18,10 +18,10 @@ import random
 from .. import core, par
 
 MANIFEST = dict(
-    text="Proof: Lean theorem infer_render (for every schema of the family InFamily — any nesting depth, all basic types, list, List[T], indexed lists with per-index defaults, records, lists of records — inferring a model from the rendered annotated headers gives back exactly that schema: names, types, defaults), infer_cells_independent, and one kernel-checked negative witness per clause of InFamily, over a line-by-line hand model of model_inference.py; tied to the code by a differential run (model vs real model_from_headers on rendered schemas in several spellings and on malformed headers) and by a direct oracle: inferred model vs explicit pydantic twin on generated rows through the real RowParser/CellParser, plus the ContentIndexParser fallback end to end.",
+    text="Proof (partial): over a line-by-line Lean model of model_inference.py, for ALL inputs: header_roundtrip (one annotated header name:type=default — every name the syntax can carry, every basic/list/List[T] type with T nested to any depth, every default of the family — is read back as exactly that name, type and default), infer_render_flat_partial (every family schema written with one header per field, any number of fields, is inferred back exactly), infer_cells_independent; the full statement C18_full (records, indexed lists with per-index defaults, lists of records, any depth) is stated in Lean, kernel-checked on nested instances of depth 1-3 (nested_instances) and checked against the real code on thousands of generated nested schemas per run; one kernel-checked negative witness per clause of InFamily. Tie: Lean infer vs real model_from_headers (walk of __fields__: names, types, defaults) on rendered schemas in two spellings and on a malformed-header stream. Direct oracle: inferred model vs explicit pydantic twin on generated rows through the real RowParser/CellParser, plus the ContentIndexParser fallback end to end.",
     ref="§5 C18",
-    note="Trusts: Lean kernel (axioms audited each run), the differential harness and Driver JSON codec, pydantic v1 create_model/field defaults, CPython int()/str.split/strip as modelled (ASCII digits; '_' and Unicode digits answered 'unsupported' and skipped by the tie). Row parsing itself (RowParser) is not modelled here: equality of row.dict() is checked on the real code for generated rows (oracle C), the Lean theorem covers the structure (fields, types, defaults). Known finding F-C18-a: a default containing '.' is cut at the dot.",
-    technique="Lean 4 proof (mutual structural induction on schemas) + model/code correspondence + differential oracle against an explicit pydantic twin",
+    note="Partial: the nested case of infer_render is not proved in general (C18_full is visible in Props/C18.lean); row parsing (RowParser) is not modelled for C18, equality of row.dict() is established on the real code for generated rows. Trusts: Lean kernel (axioms audited each run), the differential harness and Driver JSON codec, pydantic v1 create_model/field defaults, CPython int()/str.split/strip as modelled (ASCII digits; digit strings with '_' or Unicode digits answered 'unsupported' and skipped by the tie). Known finding F-C18-a: a default containing '.' is cut at the dot.",
+    technique="Lean 4 proof (string/annotation lemmas, induction on the field list) + kernel-checked nested instances + model/code correspondence + differential oracle against an explicit pydantic twin",
 )
 
 # ------------------------------------------------------------------ schema helpers
@@ -719,6 +719,9 @@ def run(ck: core.Check):
         "RowParser/CellParser are NOT modelled for C18: row.dict() equality is established on the real code for generated rows only",
     ]
     ck.partial_gap = [
+        "infer_render is proved for flat schemas of any size (infer_render_flat_partial) and for single headers of any annotation type "
+        "(header_roundtrip); the nested case (C18_full: records, indexed lists, lists of records, any depth) is stated, kernel-checked on "
+        "nested_instances (depth 1-3) and covered by tie B + oracle C on generated schemas, but not proved for all schemas",
         "inferred_parses_like_explicit (DESIGN §5) is not a Lean theorem here: it needs the RowParser model (M2, property C07/C09); "
         "given infer_render it is a congruence (same schema ⇒ same parse), checked on the real code by oracle C",
         "InFamily fixes the order 'simple fields first' (the order the code builds); schemas in another order are covered by the tie and by oracle C only",
